@@ -305,6 +305,11 @@ def withFinally (r1 : Res Flow) (runFinally : St → Res Flow) : Res Flow :=
     | .ok (.normal s2) => resume r1 s2
     | rf => rf
 
+/-- `for x in range(e)`: the loop variable and the bound expression; anything else is outside the core -/
+def forRange : Expr → Expr → Option (String × Expr)
+  | .name x _, .call (.name f _) [e] [] => if f == "range" then some (x, e) else none
+  | _, _ => none
+
 /-- a function body that falls off its end returns `None` -/
 def asCall : Res Flow → Res Flow
   | .ok (.normal s) => .ok (.returned .none s)
@@ -332,6 +337,14 @@ def exec1 (ft : FTab) (fuel : Nat) (s : St) : Stmt → Res Flow
        else execL ft fuel s orelse
      | some (.error x) => .raised x s
      | none => .stuck)
+  | .for_ false tg it body orelse =>
+    (match forRange tg it with
+     | some (x, e) =>
+       evalThen s e (fun v =>
+         match v.asInt with
+         | some n => execFor ft fuel s x 0 n body orelse
+         | none => .stuck)
+     | none => .stuck)
   | .try_ false body hs orelse fin =>
     -- body; then `else` or the first matching handler; then `finally`, always
     withFinally
@@ -342,6 +355,19 @@ def exec1 (ft : FTab) (fuel : Nat) (s : St) : Stmt → Res Flow
     | some (f, args, target) => callFn ft fuel s f args target
     | none => simpleExec s st
 termination_by st => (fuel, 1 + sizeOf st)
+/-- iterations `i, i+1, …, n-1` of `for x in range(n)`; each iteration costs one unit of fuel -/
+def execFor (ft : FTab) (fuel : Nat) (s : St) (x : String) (i n : Int) (body orelse : List Stmt) : Res Flow :=
+  if i < n then
+    match fuel with
+    | 0 => .timeout
+    | f + 1 =>
+      match execL ft (f + 1) (s.assign x (.int i)) body with
+      | .ok (.normal s') => execFor ft f s' x (i + 1) n body orelse
+      | .ok (.continued s') => execFor ft f s' x (i + 1) n body orelse
+      | .ok (.broke s') => .ok (.normal s')
+      | r => r
+  else execL ft fuel s orelse
+termination_by (fuel, 2 + sizeOf body + sizeOf orelse)
 /-- the first handler that catches `x` runs; no handler: the exception propagates -/
 def execH (ft : FTab) (fuel : Nat) (s : St) (x : String) : List Handler → Res Flow
   | [] => .raised x s
